@@ -154,7 +154,12 @@ func raceBuffer(ov *raceOverlap, scripts [][]int) {
 	_ = b.Size() // the first call completes before the Buffer is shared (documented requirement)
 	ctx, cancel := context.WithCancel(context.Background())
 	defer cancel()
-	shared, _ := b.NewConsumer()
+	// a quarter of the programs have no standing shared consumer, so the set of open consumers can become empty
+	// (and non-empty again) while other goroutines are inside Buffer methods
+	var shared bigbuff.Consumer
+	if !(len(scripts) > 0 && len(scripts[0]) > 0 && scripts[0][0]%4 == 0) {
+		shared, _ = b.NewConsumer()
+	}
 	var sharedMu sync.Mutex // only guards the harness's own "pending reads" counter
 	pendingShared := 0
 	var seq atomic.Int64
@@ -172,6 +177,10 @@ func raceBuffer(ov *raceOverlap, scripts [][]int) {
 				}
 				_ = b.Put(ctx, vals...)
 				d()
+				// the argument slice is the caller's again once Put has returned
+				for i := range vals {
+					vals[i] = nil
+				}
 			case op < 30:
 				if own == nil {
 					d := ov.enter("NewConsumer")
@@ -180,8 +189,11 @@ func raceBuffer(ov *raceOverlap, scripts [][]int) {
 				}
 			case op < 50:
 				c := own
-				if c == nil || op%2 == 0 {
+				if c == nil || (op%2 == 0 && shared != nil) {
 					c = shared
+				}
+				if c == nil {
+					continue
 				}
 				d := ov.enter("Get")
 				gctx, gcancel := context.WithTimeout(ctx, 200*time.Microsecond)
@@ -200,8 +212,11 @@ func raceBuffer(ov *raceOverlap, scripts [][]int) {
 				}
 			case op < 60:
 				c := own
-				if c == nil || op%2 == 0 {
+				if c == nil || (op%2 == 0 && shared != nil) {
 					c = shared
+				}
+				if c == nil {
+					continue
 				}
 				d := ov.enter("Commit")
 				if c.Commit() == nil {
@@ -216,8 +231,11 @@ func raceBuffer(ov *raceOverlap, scripts [][]int) {
 				d()
 			case op < 66:
 				c := own
-				if c == nil || op%2 == 0 {
+				if c == nil || (op%2 == 0 && shared != nil) {
 					c = shared
+				}
+				if c == nil {
+					continue
 				}
 				d := ov.enter("Rollback")
 				if c.Rollback() == nil {
@@ -241,9 +259,11 @@ func raceBuffer(ov *raceOverlap, scripts [][]int) {
 				_ = b.Size()
 				d()
 			case op < 84:
-				d := ov.enter("Diff")
-				_, _ = b.Diff(shared)
-				d()
+				if shared != nil {
+					d := ov.enter("Diff")
+					_, _ = b.Diff(shared)
+					d()
+				}
 			case op < 88:
 				d := ov.enter("SetCleanerConfig")
 				cd := time.Duration(op%3) * 50 * time.Microsecond
@@ -266,10 +286,25 @@ func raceBuffer(ov *raceOverlap, scripts [][]int) {
 					ownPending = 0
 					d()
 				}
-			default:
+			case op < 98:
 				d := ov.enter("Done")
 				_ = b.Done()
-				_ = shared.Done()
+				if shared != nil {
+					_ = shared.Done()
+				}
+				d()
+			default:
+				// a burst of short-lived consumers (more than a handful open at once), all closed again
+				d := ov.enter("consumer-burst")
+				var burst []bigbuff.Consumer
+				for i := 0; i < 9+op%4; i++ {
+					if c, err := b.NewConsumer(); err == nil {
+						burst = append(burst, c)
+					}
+				}
+				for _, c := range burst {
+					_ = c.Close()
+				}
 				d()
 			}
 		}
@@ -283,8 +318,10 @@ func raceBuffer(ov *raceOverlap, scripts [][]int) {
 			d()
 		}
 	})
-	_ = shared.Rollback()
-	_ = shared.Close()
+	if shared != nil {
+		_ = shared.Rollback()
+		_ = shared.Close()
+	}
 	_ = b.Close()
 	<-b.Done()
 }
